@@ -6,6 +6,8 @@ use tracing::{info, instrument};
 mod cache;
 mod search_graph;
 mod stack;
+#[cfg(chalk_verif)]
+pub mod verif;
 
 pub use cache::Cache;
 use search_graph::{DepthFirstNumber, SearchGraph};
@@ -124,6 +126,9 @@ where
         solver_stuff: impl SolverStuff<K, V>,
         should_continue: impl std::ops::Fn() -> bool + Clone,
     ) -> V {
+        #[cfg(chalk_verif)]
+        verif::count_work();
+
         // First check the cache.
         if let Some(cache) = &self.cache {
             if let Some(value) = cache.get(goal) {
